@@ -44,6 +44,11 @@ typedef struct Avtp_Cvf {
     uint8_t payload[0];
 } Avtp_Cvf_t;
 
+#ifdef COVESA_OPEN1722_VERIF
+/* verification hook: the verifier's C front end compares enum operands as signed int, GCC (no negative
+ * enumerator) as unsigned int; under the guard the identifier type is the unsigned int GCC uses */
+#define Avtp_CvfField_t Avtp_CvfField_t_verif_enum
+#endif
 typedef enum Avtp_CvfField {
     /* CVF header fields */
     AVTP_CVF_FIELD_SUBTYPE,
@@ -69,6 +74,10 @@ typedef enum Avtp_CvfField {
     /* Count number of fields for bound checks */
     AVTP_CVF_FIELD_MAX
 } Avtp_CvfField_t;
+#ifdef COVESA_OPEN1722_VERIF
+#undef Avtp_CvfField_t
+typedef unsigned int Avtp_CvfField_t;
+#endif
 
 typedef enum Avtp_CvfFormat {
     AVTP_CVF_FORMAT_RFC                 = 0x2
